@@ -494,6 +494,16 @@ def check(pid, tier, seed):
                     steps[k]["cm" if steps[k].get("cp") else "m"] = "lane%d" % lane
                 lanes.append(steps)
     add("lane", lanes)
+    # truncations the underlying store applies and THEN reports as failed (the caller - raft - simply carries on: what it
+    # wanted gone is gone): every scenario with a truncation is repeated with that fault on its first truncation
+    fdel = []
+    for sc in list(scens):
+        hit = [k for k, st in enumerate(sc["steps"]) if st.get("op") in ("trunctail", "trunchead")]
+        if hit and len(fdel) < (40, 300)[0 if tier == "quick" else 1]:
+            steps = [dict(st) for st in sc["steps"]]
+            steps[hit[0]]["failafter"] = True
+            fdel.append(steps)
+    add("fdel", fdel)
     for st in SELFTESTS:
         scens.append(mk_scen(st["id"], st["steps"], seed))
     for st in DIRECTED:
